@@ -221,7 +221,7 @@ class Ace(AceBase):
             ace_d["srcaddr"],
             platform=self._platform,
             version=self.version,
-            items=self._srcaddr.items,
+            items=self._srcaddr.items if self._srcaddr.line == ace_d["srcaddr"] else [],
             max_ncwb=self.max_ncwb,
             uuid=self._srcaddr.uuid,
             note=self._srcaddr.note,
@@ -230,7 +230,7 @@ class Ace(AceBase):
             ace_d["dstaddr"],
             platform=self._platform,
             version=self.version,
-            items=self._dstaddr.items,
+            items=self._dstaddr.items if self._dstaddr.line == ace_d["dstaddr"] else [],
             max_ncwb=self.max_ncwb,
             uuid=self._dstaddr.uuid,
             note=self._dstaddr.note,
